@@ -145,7 +145,8 @@ def native_failures(shapes, contract_name="Method.paged_result_field"):
 def falsify(run, group, info):
     if group.startswith("pager"):
         from props import C07_native
-        f = C07_native.pager_scenarios()
+        from vf.genlab import run_isolated
+        f = run_isolated("props.C07_native", "pager_scenarios")
         run.bounded.append({"what": "falsifier: generated pagers driven over a loopback channel with scripted page histories", "cases": 8})
         return ({"kind": "pager", "failures": f[:6]}, True) if f else (None, False)
     return falsify_classification(run, group, info)
@@ -180,7 +181,8 @@ def replay(path):
     doc = json.load(open(path))
     if (doc.get("replay") or {}).get("kind") == "pager":
         from props import C07_native
-        f = C07_native.pager_scenarios()
+        from vf.genlab import run_isolated
+        f = run_isolated("props.C07_native", "pager_scenarios")
         print("pager scenarios ->", "FAIL " + json.dumps(f[:3]) if f else "conform")
         return 1 if f else 0
     shape = (doc.get("replay") or {}).get("shape")
@@ -199,3 +201,6 @@ def run(run: Run):          # noqa: F811  (stage 1 + stage 2)
     _stage1_run(run)
     from props import C07_pagers
     C07_pagers.run(run)
+    C07_pagers.wiring(run)
+    run.not_decided.append("termination when the server never returns an empty token (liveness; not asked by the statement)")
+    run.assume("the pager class named by Method.client_output(.ident) is the emitted <Method.name>Pager / AsyncPager (f-string in Method._client_output; proved under C08's contract of _client_output)")
